@@ -895,6 +895,17 @@ def _check_single(case, ctx):
                   lambda: repr(os.listdir(tmp)))
 
 
+def concurrent_readers_check(case, ctx):
+    from vp.props.c10_parallel import check_concurrent_readers
+    check_concurrent_readers(case, ctx)
+    ctx.labels = {("xz" if lab.endswith("-xz") else lab) for lab in ctx.labels}
+
+
+def concurrent_readers_cases():
+    from vp.props.c10_parallel import concurrent_cases
+    return concurrent_cases()
+
+
 def suites(tier):
     return [
         Suite("bytes", check_history, strategy=H.histories("bytes"),
@@ -909,4 +920,9 @@ def suites(tier):
               examples={"quick": 15, "thorough": 120}),
         Suite("single-file", check_single, strategy=H.single_cases(),
               examples={"quick": 20, "thorough": 160}),
+        # compressed files with the same base name in different directories,
+        # read by truly concurrent threads that meet at a barrier inside the
+        # decompress block (shared with C10)
+        Suite("concurrent-readers", concurrent_readers_check,
+              cases=concurrent_readers_cases),
     ]
